@@ -89,13 +89,20 @@ FlushDone ==
     /\ pos' = 0 /\ q' = <<>> /\ pc' = "ret" /\ res' = "ok"
     /\ UNCHANGED <<blen, wire, op, nid, wroteNow>>
 
+\* The send / flush future is dropped while its only await - the transport write - is pending and has
+\* not taken a byte yet: the fill position stays, so the next flush carries everything (cancel safety).
+CancelAtWrite ==
+    /\ pc = "flush" /\ pos > 0
+    /\ pc' = "idle" /\ op' = NoOp /\ res' = "none"
+    /\ UNCHANGED <<blen, pos, q, wire, nid, wroteNow>>
+
 Return ==
     /\ pc = "ret"
     /\ pc' = "idle" /\ op' = NoOp /\ res' = "none"
     /\ UNCHANGED <<blen, pos, q, wire, nid, wroteNow>>
 
 Next == \/ \E kd \in {"enqueue", "send", "flush"}, n \in Lens, b \in BOOLEAN : OpBegin(kd, n, b)
-        \/ Serialize \/ Terminate \/ FlushWrite \/ FlushDone \/ Return
+        \/ Serialize \/ Terminate \/ FlushWrite \/ FlushDone \/ Return \/ CancelAtWrite
 Spec == Init /\ [][Next]_vars
 
 \* ---- properties (C02, C17 outbound) ----------------------------------------------
